@@ -10,9 +10,19 @@ IDLE = 1000.0
 
 
 def _other_installation(gen):
-    inst = console.default_installation(gen, 1, (3,))
+    # AT4: old ability format with a single AC ("all groups belong to this AC"): any group left over from
+    # the first life would show up among its zones
+    inst = console.default_installation(gen, 1, (3,), fmt="old")
     inst["acs"][0]["name"] = "OtherAC"
     inst["zones"] = {0: "Alpha", 1: "Beta", 2: "Gamma"}
+    return inst
+
+
+def _first_installation(gen):
+    inst = console.default_installation(gen, 2, (2, 1))
+    if gen == 4:
+        inst["zones"][7] = "Attic"          # a group the second installation does not have
+        inst["acs"][1]["zones"].append(7)
     return inst
 
 
@@ -42,7 +52,7 @@ class Scenario(apiworld.ApiWorld):
 
     def __init__(self, params):
         gen = params["gen"]
-        super().__init__(gen, console.default_installation(gen, 2, (2, 1)), auto=False, net_auto=None)
+        super().__init__(gen, _first_installation(gen), auto=False, net_auto=None)
         self.p = params
         self.conn_events = []
         self.shutdown_state = None      # None | 'called' | 'returned'
